@@ -8,9 +8,9 @@ VARIABLES tid, verdict
 Verdict(t) ==
   LET c == t.case.c o == t.obs IN
   IF o.res # "ok" THEN (IF MayRefuse(c) /\ o.res \in {"err:FinamDataError", "err:FinamMetaDataError"} THEN "ok" ELSE "regrid-raised@1")
-  ELSE IF Len(o.vals) # N(c.dst) THEN "regrid-shape@1"
-  ELSE IF \E p \in 1..N(c.dst) : TMask(c, p) /\ ~o.mask[p] THEN "masked-target-stays-masked@1"
-  ELSE IF \E p \in 1..N(c.dst) :
+  ELSE IF Len(o.vals) # NT(c) THEN "regrid-shape@1"
+  ELSE IF \E p \in 1..NT(c) : TMask(c, p) /\ ~o.mask[p] THEN "masked-target-stays-masked@1"
+  ELSE IF \E p \in 1..NT(c) :
             LET a == Admissible(c, p) IN
             IF o.mask[p] THEN ~a.masked ELSE ~(o.vals[p] \in a.vals)
        THEN (IF c.kind = "nearest" THEN "nearest-source@1" ELSE "linear-affine@1")
